@@ -1,7 +1,7 @@
 """Shared driver of the behavioural algorithm checks (C01-C05, C07, C09, C10):
 TLC generates the DCOP instances (Gen_Dcop.tla), the real computations are run on them under seeded
 per-channel-FIFO schedules (simrt), the recorded executions are judged by TLC (AlgoMon.tla)."""
-import json, random
+import json, os, random
 from . import tlc
 from .common import scratch, MachineryError, seed as vseed
 from .simrt import World
@@ -91,7 +91,7 @@ def trace_record(tid, w, props, k=0, infinity=10000):
 
 
 def _judge_chunk(records, what):
-    f = scratch() / ("traces_%d.ndjson" % random.getrandbits(40))
+    f = scratch() / ("traces_%d_%d.ndjson" % (os.getpid(), random.getrandbits(40)))
     with open(f, "w") as fh:
         for r in records:
             fh.write(json.dumps(r) + "\n")
